@@ -246,18 +246,15 @@ def scanStr : SState → List Char → Res (Str × List Char)
     else .err                            -- UnknownEscapeSequence
   | .afterU, c :: r =>
     if c = '{' then scanStr (.hex 0 true) r
-    -- `\u` without `{` is silently dropped; `c` is an ordinary string character
-    else if c = '"' then .ok ([], r)
-    else if c = '\\' then scanStr .esc r
-    else (scanStr .norm r).push c
+    else .err                            -- malformed `\u` escape (an error since fix C18-a)
   | .hex v valid, c :: r =>
     if c = '}' then
       if valid ∧ Nat.isValidChar v then (scanStr .norm r).push (Char.ofNat v)
-      else scanStr .norm r               -- silently dropped (a TODO in the real lexer)
+      else .err                          -- not a scalar value
     else
       match hexVal c with
       | some d => scanStr (.hex (v * 16 + d) valid) r
-      | none => scanStr (.hex v false) r
+      | none => .err                     -- malformed `\u{…` escape
 
 /-! ## Tokens and the lexer -/
 
